@@ -5,7 +5,7 @@ from pcv import core, sccgen
 from pcv.props import scc_common as sc
 
 P = "PcVerif.Props.C16."
-THEOREMS = [P + t for t in ["toCaps_conserves_text", "correctLast_only_times", "setEnd_preserves_nodes", "store_conserves_text", "rollUp_conserves_text", "addChars_appends_text", "word_basic_held", "word_cr_held", "word_cr_repeated_held", "rollup_stream_conserves"]]
+THEOREMS = [P + t for t in ["toCaps_conserves_text", "correctLast_only_times", "setEnd_preserves_nodes", "store_conserves_text", "rollUp_conserves_text", "addChars_appends_text", "word_basic_held", "word_cr_held", "word_cr_repeated_held", "rollup_stream_conserves", "rollup_rows_contiguous", "stored_captions_carry_times"]]
 TOL = Fraction(1, 1024)
 
 
